@@ -356,6 +356,45 @@ type StructKey struct {
 	B int
 }
 
+// StructSV: a SafeValue with a formatting method directly followed by an
+// unexported (not interfaceable) field holding unsafe data
+type StructSV struct {
+	Node   SVStringer
+	secret string
+	ID     SVStrStringer
+	n      int
+}
+
+// ErrGoStr: an error that is also a GoStringer
+type ErrGoStr struct{ S string }
+
+func (e ErrGoStr) Error() string    { return "EG<" + e.S + ">" }
+func (e ErrGoStr) GoString() string { return "go:EG<" + e.S + ">" }
+
+// Setting happens to have a method named like the accessor of the
+// library's wrappers; it is an ordinary value all the same.
+type Setting struct {
+	Name string
+	V    int
+}
+
+func (s Setting) GetValue() interface{} { return s.V }
+
+type SettingP struct {
+	Name string
+	V    int
+}
+
+func (s *SettingP) GetValue() interface{} { return s.V }
+
+// StructM: maps with interface-typed keys behind an unexported field
+type StructM struct {
+	m map[interface{}]int
+	M map[interface{}]string
+}
+
+var mupA, mupB, mupC int
+
 // YieldStringer gives up the processor inside its method, so that calls on
 // other goroutines run while this one is in the middle of a print.
 type YieldStringer struct {
